@@ -1143,4 +1143,434 @@ theorem lex_render_position_prefix (sep sep' : Nat → List Char) (tks tks' : Li
   rw [hpre, ← b] at a
   exact ⟨congrArg Prod.fst a, congrArg Prod.snd a⟩
 
+/-! ## 3. from file shapes to source text and back -/
+
+/-- all tokens of a list are well-formed -/
+def AllWF (l : List Tk) : Prop := ∀ t ∈ l, t.WF
+
+theorem allWF_nil : AllWF [] := by intro t h; cases h
+theorem allWF_cons {t : Tk} {l : List Tk} : AllWF (t :: l) ↔ t.WF ∧ AllWF l := by
+  simp [AllWF]
+theorem allWF_append {a b : List Tk} : AllWF (a ++ b) ↔ AllWF a ∧ AllWF b := by
+  simp only [AllWF, List.mem_append]
+  exact ⟨fun h => ⟨fun t ht => h t (Or.inl ht), fun t ht => h t (Or.inr ht)⟩,
+    fun h t ht => ht.elim (h.1 t) (h.2 t)⟩
+theorem allWF_map {α : Type} {g : α → Tk} {l : List α} : AllWF (l.map g) ↔ ∀ x ∈ l, (g x).WF := by
+  simp [AllWF]
+theorem allWF_flatMap {α : Type} {g : α → List Tk} {l : List α} (h : ∀ x ∈ l, AllWF (g x)) :
+    AllWF (l.flatMap g) := by
+  intro t ht
+  obtain ⟨x, hx, hxt⟩ := List.mem_flatMap.mp ht
+  exact h x hx t hxt
+theorem kw_wf {s : String} (h : literals.contains s = true) : (Tk.kw s).WF := h
+
+/-- **Well-formed file shapes**: every printed token is a well-formed token kind -/
+def FileShape.WF (f : FileShape) : Prop := AllWF (printFile f)
+
+instance (f : FileShape) : Decidable f.WF := by
+  unfold FileShape.WF AllWF; infer_instance
+
+/-! ### sufficient syntactic conditions -/
+
+/-- an identifier of the grammar that is not a keyword -/
+def idOK (s : String) : Bool := isIdent s.toList && !literals.contains s
+/-- a name: an identifier, or (if written `dotted`) a dotted name -/
+def nameOK (n : String) (d : Bool) : Bool := if d then isNsid n.toList else idOK n
+/-- a comment line: `#…` without line break -/
+def commentOK (s : String) : Bool := isCommentLit s.toList
+def commentsOK (c : List String) : Bool := c.all commentOK
+def targetOK (s : String) : Bool := isTargetLit s.toList
+def pathOK (s : String) : Bool := isPathLit s.toList
+
+theorem nameTk_wf {n : String} {d : Bool} (h : nameOK n d = true) : (nameTk n d).WF := by
+  cases d <;> simpa [nameOK, nameTk, Tk.WF, Tk.wf, idOK] using h
+
+mutual
+def TyShape.good : TyShape → Bool
+  | .mk n d args _ => nameOK n d && goodArgs args
+def goodArgs : List TyShape → Bool
+  | [] => true
+  | a :: as => a.good && goodArgs as
+end
+
+def ItemShape.good (i : ItemShape) : Bool := commentsOK i.comment && idOK i.name
+def FlagItemShape.good (i : FlagItemShape) : Bool :=
+  commentsOK i.comment && idOK i.name && (match i.modifier with
+    | none => true
+    | some m => idOK m)
+def FieldShape.good (f : FieldShape) : Bool := commentsOK f.comment && idOK f.name && f.ty.good
+def ParamShape.good (p : ParamShape) : Bool := idOK p.name && p.ty.good
+def SigShape.good (s : SigShape) : Bool :=
+  s.params.all ParamShape.good &&
+  (match s.throwing with
+    | none => true
+    | some l => l.all TyShape.good) &&
+  (match s.ret with
+    | none => true
+    | some t => t.good)
+def MethodShape.good (m : MethodShape) : Bool := commentsOK m.comment && idOK m.name && m.sig.good
+def PropShape.good (p : PropShape) : Bool := commentsOK p.comment && idOK p.name && p.ty.good
+def MemberShape.good : MemberShape → Bool
+  | .m x => x.good
+  | .p x => x.good
+def ErrCodeShape.good (e : ErrCodeShape) : Bool :=
+  commentsOK e.comment && idOK e.name && e.params.all ParamShape.good
+def DeclShape.good : DeclShape → Bool
+  | .enum n c is => idOK n && commentsOK c && is.all ItemShape.good
+  | .flags n c is => idOK n && commentsOK c && is.all FlagItemShape.good
+  | .record n c t fs d => idOK n && commentsOK c && t.all targetOK && fs.all FieldShape.good &&
+      (match d with
+        | none => true
+        | some ds => ds.all idOK)
+  | .interface n c _ t ms => idOK n && commentsOK c && t.all targetOK && ms.all MemberShape.good
+  | .function n c ft s => idOK n && commentsOK c &&
+      (match ft with
+        | none => true
+        | some l => l.all targetOK) && s.good
+  | .error n c cs => idOK n && commentsOK c && cs.all ErrCodeShape.good
+
+mutual
+def ContentShape.good : ContentShape → Bool
+  | .decl d => d.good
+  | .ns n d c cs => nameOK n d && commentsOK c && goodContents cs
+def goodContents : List ContentShape → Bool
+  | [] => true
+  | a :: as => a.good && goodContents as
+end
+
+/-- **Syntactic well-formedness of a file shape**: every declared name (types, items, fields, parameters,
+    methods, properties, error codes, `deriving` entries, flag modifiers) is an identifier and not a keyword;
+    type references and namespace names are identifiers, or dotted names when marked `dotted`; every comment
+    line is `#…` without line break; target flags are `+x`/`-x`; import paths are `"…"` without inner quote. -/
+def FileShape.good (f : FileShape) : Bool := f.loads.all (fun l => pathOK l.lit) && goodContents f.contents
+
+theorem printComments_wf {c : List String} (h : commentsOK c = true) : AllWF (printComments c) := by
+  rw [printComments, allWF_map]
+  intro x hx
+  exact List.all_eq_true.mp h x hx
+
+theorem printTargets_wf {l : List String} (h : l.all targetOK = true) : AllWF (printTargets l) := by
+  rw [printTargets, allWF_map]
+  intro x hx
+  exact List.all_eq_true.mp h x hx
+
+theorem id_wf {s : String} (h : idOK s = true) : (Tk.id s).WF := h
+
+theorem printTy_wf (s : TyShape) : s.good = true → AllWF (printTy s) := by
+  refine TyShape.rec (motive_1 := fun s => s.good = true → AllWF (printTy s))
+    (motive_2 := fun l => goodArgs l = true → AllWF (printArgs l)) ?_ ?_ ?_ s
+  · intro n d args o ih hg
+    simp only [TyShape.good, Bool.and_eq_true] at hg
+    have hn := nameTk_wf hg.1
+    have ho : AllWF (if o then [Tk.kw "?"] else []) := by
+      cases o
+      · exact allWF_nil
+      · exact allWF_cons.mpr ⟨kw_wf (by decide), allWF_nil⟩
+    cases args with
+    | nil => rw [printTy_nil]; exact allWF_cons.mpr ⟨hn, ho⟩
+    | cons a as =>
+      have h2 := ih hg.2
+      rw [printArgs_cons, allWF_cons, allWF_append] at h2
+      rw [printTy_cons]
+      exact allWF_cons.mpr ⟨hn, allWF_cons.mpr ⟨kw_wf (by decide), allWF_append.mpr ⟨h2.2.1,
+        allWF_append.mpr ⟨h2.2.2, allWF_cons.mpr ⟨kw_wf (by decide), ho⟩⟩⟩⟩⟩
+  · intro _; simp only [printArgs]; exact allWF_nil
+  · intro a as iha ihas hg
+    simp only [goodArgs, Bool.and_eq_true] at hg
+    rw [printArgs_cons]
+    exact allWF_cons.mpr ⟨kw_wf (by decide), allWF_append.mpr ⟨iha hg.1, ihas hg.2⟩⟩
+
+theorem allWF_nil_iff : AllWF [] ↔ True := ⟨fun _ => trivial, fun _ => allWF_nil⟩
+
+/-- closes conjunctions of well-formedness facts: hypotheses, or keyword tokens by evaluation -/
+macro "wf_close" : tactic => `(tactic| ((repeat' apply And.intro) <;> first | assumption | decide))
+
+theorem printItem_wf {i : ItemShape} (h : i.good = true) : AllWF (printItem i) := by
+  simp only [ItemShape.good, Bool.and_eq_true] at h
+  have h1 := printComments_wf h.1
+  have h2 := id_wf h.2
+  simp only [printItem, allWF_append, allWF_cons, allWF_nil_iff]
+  wf_close
+
+theorem printFlagItem_wf {i : FlagItemShape} (h : i.good = true) : AllWF (printFlagItem i) := by
+  simp only [FlagItemShape.good, Bool.and_eq_true] at h
+  have h1 := printComments_wf h.1.1
+  have h2 := id_wf h.1.2
+  have h3 : AllWF (printModifier i.modifier) := by
+    cases hm : i.modifier with
+    | none => exact allWF_nil
+    | some m =>
+      have h3 := h.2
+      rw [hm] at h3
+      have := id_wf h3
+      simp only [printModifier, allWF_cons, allWF_nil_iff]
+      wf_close
+  simp only [printFlagItem, allWF_append, allWF_cons, allWF_nil_iff]
+  wf_close
+
+theorem printField_wf {f : FieldShape} (h : f.good = true) : AllWF (printField f) := by
+  simp only [FieldShape.good, Bool.and_eq_true] at h
+  have h1 := printComments_wf h.1.1
+  have h2 := id_wf h.1.2
+  have h3 := printTy_wf _ h.2
+  simp only [printField, allWF_append, allWF_cons, allWF_nil_iff]
+  wf_close
+
+theorem printParam_wf {p : ParamShape} (h : p.good = true) : AllWF (printParam p) := by
+  simp only [ParamShape.good, Bool.and_eq_true] at h
+  have h1 := id_wf h.1
+  have h2 := printTy_wf _ h.2
+  simp only [printParam, allWF_cons]
+  wf_close
+
+theorem printParams_wf : ∀ (ps : List ParamShape), ps.all ParamShape.good = true → AllWF (printParams ps)
+  | [], _ => allWF_nil
+  | [p], h => by
+    simp only [printParams]
+    exact printParam_wf (by simpa using h)
+  | p :: q :: ps, h => by
+    simp only [List.all_cons, Bool.and_eq_true] at h
+    have h1 := printParam_wf h.1
+    have h2 := printParams_wf (q :: ps) (by simp only [List.all_cons, Bool.and_eq_true]; exact h.2)
+    simp only [printParams, allWF_append, allWF_cons]
+    wf_close
+
+theorem printTys_wf : ∀ (l : List TyShape), l.all TyShape.good = true → AllWF (printTys l)
+  | [], _ => allWF_nil
+  | [t], h => by
+    simp only [printTys]
+    exact printTy_wf _ (by simpa using h)
+  | t :: u :: ts, h => by
+    simp only [List.all_cons, Bool.and_eq_true] at h
+    have h1 := printTy_wf _ h.1
+    have h2 := printTys_wf (u :: ts) (by simp only [List.all_cons, Bool.and_eq_true]; exact h.2)
+    simp only [printTys, allWF_append, allWF_cons]
+    wf_close
+
+theorem printIds_wf : ∀ (l : List String), l.all idOK = true → AllWF (printIds l)
+  | [], _ => allWF_nil
+  | [d], h => by
+    have := id_wf (s := d) (by simpa using h)
+    simp only [printIds, allWF_cons, allWF_nil_iff]
+    wf_close
+  | d :: e :: ds, h => by
+    simp only [List.all_cons, Bool.and_eq_true] at h
+    have h1 := id_wf h.1
+    have h2 := printIds_wf (e :: ds) (by simp only [List.all_cons, Bool.and_eq_true]; exact h.2)
+    simp only [printIds, allWF_cons]
+    wf_close
+
+theorem printSig_wf {s : SigShape} (h : s.good = true) : AllWF (printSig s) := by
+  simp only [SigShape.good, Bool.and_eq_true] at h
+  have h1 := printParams_wf _ h.1.1
+  have h2 : AllWF (printThrowing s.throwing) := by
+    cases ht : s.throwing with
+    | none => exact allWF_nil
+    | some l =>
+      have h2 := h.1.2
+      rw [ht] at h2
+      have := printTys_wf l h2
+      simp only [printThrowing, allWF_cons]
+      wf_close
+  have h3 : AllWF (printRet s.ret) := by
+    cases hr : s.ret with
+    | none => exact allWF_nil
+    | some t =>
+      have h3 := h.2
+      rw [hr] at h3
+      have := printTy_wf t h3
+      simp only [printRet, allWF_cons]
+      wf_close
+  simp only [printSig, allWF_append, allWF_cons]
+  wf_close
+
+theorem printMod_wf (b : Bool) (s : String) (h : (Tk.kw s).WF) : AllWF (printMod b s) := by
+  cases b
+  · exact allWF_nil
+  · exact allWF_cons.mpr ⟨h, allWF_nil⟩
+
+theorem printMethod_wf {m : MethodShape} (h : m.good = true) : AllWF (printMethod m) := by
+  simp only [MethodShape.good, Bool.and_eq_true] at h
+  have h1 := printComments_wf h.1.1
+  have h2 := id_wf h.1.2
+  have h3 := printSig_wf h.2
+  have h4 := printMod_wf m.isStatic "static" (by decide)
+  have h5 := printMod_wf m.isConst "const" (by decide)
+  have h6 := printMod_wf m.isAsync "async" (by decide)
+  simp only [printMethod, allWF_append, allWF_cons, allWF_nil_iff]
+  wf_close
+
+theorem printProp_wf {p : PropShape} (h : p.good = true) : AllWF (printProp p) := by
+  simp only [PropShape.good, Bool.and_eq_true] at h
+  have h1 := printComments_wf h.1.1
+  have h2 := id_wf h.1.2
+  have h3 := printTy_wf _ h.2
+  simp only [printProp, allWF_append, allWF_cons, allWF_nil_iff]
+  wf_close
+
+theorem printMember_wf {m : MemberShape} (h : m.good = true) : AllWF (printMember m) := by
+  cases m with
+  | m x => exact printMethod_wf h
+  | p x => exact printProp_wf h
+
+theorem printErrCode_wf {e : ErrCodeShape} (h : e.good = true) : AllWF (printErrCode e) := by
+  simp only [ErrCodeShape.good, Bool.and_eq_true] at h
+  have h1 := printComments_wf h.1.1
+  have h2 := id_wf h.1.2
+  have h3 : AllWF (e.params.flatMap printParam) :=
+    allWF_flatMap (fun x hx => printParam_wf (List.all_eq_true.mp h.2 x hx))
+  simp only [printErrCode]
+  cases hp : e.params with
+  | nil =>
+    simp only [allWF_append, allWF_cons, allWF_nil_iff, List.nil_append]
+    wf_close
+  | cons p ps =>
+    rw [hp] at h3
+    simp only [allWF_append, allWF_cons, allWF_nil_iff]
+    wf_close
+
+theorem printHead_wf {n : String} {c : List String} {body : List Tk} (hn : idOK n = true)
+    (hc : commentsOK c = true) (hb : AllWF body) : AllWF (printHead n c body) := by
+  have h1 := printComments_wf hc
+  have h2 := id_wf hn
+  simp only [printHead, allWF_append, allWF_cons]
+  wf_close
+
+theorem printDecl_wf {d : DeclShape} (h : d.good = true) : AllWF (printDecl d) := by
+  cases d with
+  | enum n c is =>
+    simp only [DeclShape.good, Bool.and_eq_true] at h
+    have h3 : AllWF (is.flatMap printItem) :=
+      allWF_flatMap (fun x hx => printItem_wf (List.all_eq_true.mp h.2 x hx))
+    apply printHead_wf h.1.1 h.1.2
+    simp only [allWF_append, allWF_cons, allWF_nil_iff]
+    wf_close
+  | flags n c is =>
+    simp only [DeclShape.good, Bool.and_eq_true] at h
+    have h3 : AllWF (is.flatMap printFlagItem) :=
+      allWF_flatMap (fun x hx => printFlagItem_wf (List.all_eq_true.mp h.2 x hx))
+    apply printHead_wf h.1.1 h.1.2
+    simp only [allWF_append, allWF_cons, allWF_nil_iff]
+    wf_close
+  | record n c t fs d =>
+    simp only [DeclShape.good, Bool.and_eq_true] at h
+    have h3 : AllWF (fs.flatMap printField) :=
+      allWF_flatMap (fun x hx => printField_wf (List.all_eq_true.mp h.1.2 x hx))
+    have h4 := printTargets_wf h.1.1.2
+    have h5 : AllWF (printDeriving d) := by
+      cases d with
+      | none => exact allWF_nil
+      | some ds =>
+        have := printIds_wf ds h.2
+        simp only [printDeriving, allWF_append, allWF_cons, allWF_nil_iff]
+        wf_close
+    apply printHead_wf h.1.1.1.1 h.1.1.1.2
+    simp only [allWF_append, allWF_cons]
+    wf_close
+  | interface n c mn t ms =>
+    simp only [DeclShape.good, Bool.and_eq_true] at h
+    have h3 : AllWF (ms.flatMap printMember) :=
+      allWF_flatMap (fun x hx => printMember_wf (List.all_eq_true.mp h.2 x hx))
+    have h4 := printTargets_wf h.1.2
+    have h5 := printMod_wf mn "main" (by decide)
+    apply printHead_wf h.1.1.1 h.1.1.2
+    simp only [allWF_append, allWF_cons, allWF_nil_iff]
+    wf_close
+  | function n c ft s =>
+    simp only [DeclShape.good, Bool.and_eq_true] at h
+    have h3 := printSig_wf h.2
+    have h4 : AllWF (printFnKw ft) := by
+      cases ft with
+      | none => exact allWF_nil
+      | some l =>
+        have := printTargets_wf (l := l) h.1.2
+        simp only [printFnKw, allWF_cons]
+        wf_close
+    apply printHead_wf h.1.1.1 h.1.1.2
+    simp only [allWF_append, allWF_cons, allWF_nil_iff]
+    wf_close
+  | error n c cs =>
+    simp only [DeclShape.good, Bool.and_eq_true] at h
+    have h3 : AllWF (cs.flatMap printErrCode) :=
+      allWF_flatMap (fun x hx => printErrCode_wf (List.all_eq_true.mp h.2 x hx))
+    apply printHead_wf h.1.1 h.1.2
+    simp only [allWF_append, allWF_cons, allWF_nil_iff]
+    wf_close
+
+theorem printContents_wf (l : List ContentShape) : goodContents l = true → AllWF (printContents l) := by
+  refine ContentShape.rec_1 (motive_1 := fun s => s.good = true → AllWF (printContent s))
+    (motive_2 := fun l => goodContents l = true → AllWF (printContents l)) ?_ ?_ ?_ ?_ l
+  · intro d h
+    simp only [ContentShape.good] at h
+    simp only [printContent]
+    exact printDecl_wf h
+  · intro n d c cs ih h
+    simp only [ContentShape.good, Bool.and_eq_true] at h
+    have h1 := printComments_wf h.1.2
+    have h2 := nameTk_wf h.1.1
+    have h3 := ih h.2
+    simp only [printContent, allWF_append, allWF_cons, allWF_nil_iff]
+    wf_close
+  · intro _; simp only [printContents]; exact allWF_nil
+  · intro a as iha ihas h
+    simp only [goodContents, Bool.and_eq_true] at h
+    simp only [printContents]
+    exact allWF_append.mpr ⟨iha h.1, ihas h.2⟩
+
+/-- **the syntactic conditions suffice**: a `good` file shape prints to well-formed tokens -/
+theorem FileShape.good_wf {f : FileShape} (h : f.good = true) : f.WF := by
+  simp only [FileShape.good, Bool.and_eq_true] at h
+  have h1 : AllWF (f.loads.flatMap printLoad) := by
+    apply allWF_flatMap
+    intro l hl
+    have hp : (Tk.filepath l.lit).WF := List.all_eq_true.mp h.1 l hl
+    have hk : (Tk.kw (if l.isImport then "@import" else "@extern")).WF := by
+      cases l.isImport <;> decide
+    simp only [printLoad, allWF_cons, allWF_nil_iff]
+    wf_close
+  exact allWF_append.mpr ⟨h1, printContents_wf _ h.2⟩
+
+/-- **`source_roundtrip`.** Write the printed tokens of a well-formed file shape `f` as text, with *any*
+    admissible layout `sep` (any white-space runs between tokens, any line structure, comments ended by a line
+    end, optional gluing where harmless): lexing and parsing that text succeeds and returns a file whose shape
+    is `f` (up to what the AST does not record: `f.erase`). -/
+theorem source_roundtrip (f : FileShape) (hf : f.WF) (sep : Nat → List Char) (hl : Layout sep (printFile f)) :
+    ∃ file, parseText (renderTks sep (printFile f)) = some file ∧ file.shape? = some f.erase := by
+  have h := lex_render sep (printFile f) hf hl
+  cases hlex : lex (renderTks sep (printFile f)) with
+  | none => rw [hlex] at h; cases h
+  | some toks =>
+    rw [hlex] at h
+    exact text_roundtrip f _ toks hlex (Option.some.inj h)
+
+/-- the same under the syntactic conditions -/
+theorem source_roundtrip_good (f : FileShape) (hf : f.good = true) (sep : Nat → List Char)
+    (hl : Layout sep (printFile f)) :
+    ∃ file, parseText (renderTks sep (printFile f)) = some file ∧ file.shape? = some f.erase :=
+  source_roundtrip f (FileShape.good_wf hf) sep hl
+
+/-- **`layout_independence`.** Two admissible layouts of the same file shape parse (both successfully) to
+    files of the same shape. -/
+theorem layout_independence (f : FileShape) (hf : f.WF) (sep sep' : Nat → List Char)
+    (hl : Layout sep (printFile f)) (hl' : Layout sep' (printFile f)) :
+    ∃ file file', parseText (renderTks sep (printFile f)) = some file ∧
+      parseText (renderTks sep' (printFile f)) = some file' ∧
+      file.shape? = file'.shape? ∧ file.shape? = some f.erase := by
+  obtain ⟨file, h1, h2⟩ := source_roundtrip f hf sep hl
+  obtain ⟨file', h1', h2'⟩ := source_roundtrip f hf sep' hl'
+  exact ⟨file, file', h1, h1', by rw [h2, h2'], h2⟩
+
+/-- **`source_injective`.** If two well-formed file shapes, each with an admissible layout of its own, render
+    to the same text, they have the same erased shape: different (erased) shapes never share a source text. -/
+theorem source_injective (f g : FileShape) (hf : f.WF) (hg : g.WF) (sep sep' : Nat → List Char)
+    (hl : Layout sep (printFile f)) (hl' : Layout sep' (printFile g))
+    (h : renderTks sep (printFile f) = renderTks sep' (printFile g)) : f.erase = g.erase :=
+  printFile_injective f g (renderTks_injective sep sep' _ _ hf hg hl hl' h)
+
+/-- contrapositive form -/
+theorem source_ne_of_shape_ne (f g : FileShape) (hf : f.WF) (hg : g.WF) (sep sep' : Nat → List Char)
+    (hl : Layout sep (printFile f)) (hl' : Layout sep' (printFile g)) (h : f.erase ≠ g.erase) :
+    renderTks sep (printFile f) ≠ renderTks sep' (printFile g) :=
+  fun e => h (source_injective f g hf hg sep sep' hl hl' e)
+
 end Pydjinni.Front
